@@ -9,6 +9,7 @@ import MosnVerif.Lemmas.UpgHandshake
 import MosnVerif.Lemmas.HandoverQueue
 import MosnVerif.Lemmas.H1Drain
 import MosnVerif.Lemmas.H2GoAwaySend
+import MosnVerif.Lemmas.TlsHandover
 /-!
 # C11 — graceful shutdown and hot upgrade lose no requests (property theorems only; level `other`)
 
@@ -759,5 +760,58 @@ example : (runOld [.sendListeners, .readReady, .writeAck, .stopService, .sleep 3
     ∧ 5000 < 3000 + 2000 + transferInstant (transferTimeoutAfterStart false 2000) 0 := by decide
 
 end UpgradeEndToEnd
+
+/-! ## hand-over of a TLS connection: the record-layer state (`Model/TlsHandover.lean`, kinds `tg`, `tx`) -/
+section TlsState
+open MosnVerif.Model.TlsHandover MosnVerif.Lemmas.TlsHandover
+
+/-- **tls_state_roundtrip** (extends `transfer_roundtrip` to the TLS bytes it carries): for EVERY record-layer state of
+an established connection — any key material, any sequence numbers, ANY buffered undecrypted bytes (nothing, one
+byte, a header, a partial record, whole unread records) and any undelivered plaintext — restore ∘ serialise of the
+regenerated `GetTLSInfo` / `TransferTLSConn` is the identity: the new process's connection has the same keys, the
+same sequence numbers and exactly the same buffered bytes, and knows its version. -/
+theorem tls_state_roundtrip {κ : Type} (st : RecState κ) (hv : st.haveVers = true) : tlsHandover st = some st := by
+  obtain ⟨hs, hb, hk, hh⟩ := code_flags
+  cases st with
+  | mk keys inSeq outSeq rawInput input haveVers =>
+    simp only at hv
+    subst hv
+    simp only [tlsHandover, tlsHandoverWith, restoreWith, serialiseWith, hs, hb, hk, hh, if_true]
+    rw [copyOut_getD _ _ rawInput code_rawCopied code_rawPreLen, copyOut_getD _ _ input code_inputCopied code_inputPreLen]
+
+/-- **handed_over_stream_same**: whatever the record-layer decryption is, and whatever still arrives on the socket, the
+reader in the new process gets exactly the plaintext the reader in the old process would have got: no buffered byte of
+a request is lost, reordered or preceded by anything. -/
+theorem handed_over_stream_same {κ : Type} (dec : κ → Nat → Bytes → Option Bytes) (st : RecState κ)
+    (hv : st.haveVers = true) (wire : Bytes) :
+    (tlsHandover st).bind (fun st' => futurePlain dec st' wire) = futurePlain dec st wire := by
+  rw [tls_state_roundtrip st hv]; rfl
+
+/-- the serialised state carries the buffered bytes themselves — nothing in front of them -/
+theorem tls_serialise_exact {κ : Type} (st : RecState κ) :
+    (serialise st).rawInput.getD [] = st.rawInput ∧ (serialise st).input.getD [] = st.input ∧
+    (serialise st).inSeq = st.inSeq ∧ (serialise st).outSeq = st.outSeq ∧ (serialise st).keys = some st.keys := by
+  obtain ⟨hs, _, hk, _⟩ := code_flags
+  refine ⟨copyOut_getD _ _ st.rawInput code_rawCopied code_rawPreLen,
+    copyOut_getD _ _ st.input code_inputCopied code_inputPreLen, ?_, ?_, ?_⟩ <;>
+  simp [serialise, serialiseWith, hs, hk]
+
+-- non-vacuous: a header and a half of a record buffered, two plaintext bytes undelivered
+example : tlsHandover (⟨7, 2, 1, [23, 3, 3, 0, 40, 9, 9], [65, 66], true⟩ : RecState Nat)
+    = some ⟨7, 2, 1, [23, 3, 3, 0, 40, 9, 9], [65, 66], true⟩ := by decide
+example : futurePlain (fun _ _ b => some b) (⟨7, 2, 1, [1, 2], [65], true⟩ : RecState Nat) [3] = some [65, 1, 2, 3] := by decide
+/-- negation witness (the code before its repair: `bytes.NewBuffer(make([]byte, n))`): `n` zero bytes in front of the
+buffered bytes; only an empty buffer survives -/
+example : tlsHandoverWith zeroPrefixCode (⟨7, 2, 1, [23, 3, 3], [], true⟩ : RecState Nat)
+    = some ⟨7, 2, 1, [0, 0, 0, 23, 3, 3], [], true⟩ := by decide
+example : tlsHandoverWith zeroPrefixCode (⟨7, 2, 1, [], [65], true⟩ : RecState Nat) = some ⟨7, 2, 1, [], [0, 65], true⟩ := by decide
+example : tlsHandoverWith zeroPrefixCode (⟨7, 2, 1, [], [], true⟩ : RecState Nat) = some ⟨7, 2, 1, [], [], true⟩ := by decide
+/-- negation witnesses: keys recorded before the handshake ⇒ the new process refuses every connection;
+`haveVers` not set ⇒ the first record after the hand-over is rejected -/
+example : tlsHandoverWith earlyKeysCode (⟨7, 2, 1, [], [], true⟩ : RecState Nat) = none := by decide
+example : (tlsHandoverWith noHaveVersCode (⟨7, 2, 1, [], [], true⟩ : RecState Nat)).bind
+    (fun s => futurePlain (fun _ _ b => some b) s [1]) = none := by decide
+
+end TlsState
 
 end MosnVerif.Props.C11
